@@ -18,6 +18,16 @@ def run_model(model_case, perturb):
     elif pattern == "steps":
         case["commands"] = [["initialize"]] + [["step"]] * perturb.get("k", 3) \
             + [["drain"], ["settle"]]
+    elif pattern == "driver_stops":
+        # the caller thread stops the run at arbitrary points of the run thread
+        cmds = [["initialize"]]
+        for dt in perturb.get("sleeps", [0.0005, 0.001, 0.002]):
+            cmds += [["start"], ["sleep", dt], ["stop"], ["settle"]]
+        case["commands"] = cmds + [["drain"], ["settle"]]
+    elif pattern == "listener_stops":
+        case["listener_cmds"] = {"TIME_CHANGED": [[k, ["stop"]]
+                                                  for k in perturb.get("occurrences", [2, 4])]}
+        case["commands"] = [["initialize"], ["start"], ["settle"], ["drain"], ["settle"]]
     else:
         case["pause_at"] = perturb.get("pause_at", [2, 5])
         case["commands"] = [["initialize"], ["start"], ["settle"], ["drain"], ["settle"]]
